@@ -88,6 +88,20 @@ def stepMp (op : String) (j : Json) : Option Json :=
     match j.getObjVal? "v" with
     | .ok t => (mvOf t).map (fun v => Json.str (hexOf (enc v)))
     | _ => none
+  | "mp_struct" =>
+    -- a derived structure given as its (member name, value) list: the bytes written for it, and every member looked up again in
+    -- what the reader returns for those bytes
+    match j.getObjVal? "fields" with
+    | .ok (.arr a) =>
+      (a.toList.mapM (fun (p : Json) => match p with
+        | Json.arr #[Json.str k, v] => (match unhex k, mvOf v with | some kb, some x => some (kb, x) | _, _ => none)
+        | _ => none)).map (fun (fields : List (List Nat × MV)) =>
+          let bytes := enc (structMV fields)
+          let found := match decode bytes with
+            | some (.map kvs) => fields.all (fun (k, v) => match field k kvs with | some w => enc w == enc v | none => false)
+            | _ => false
+          Json.mkObj [("hex", Json.str (hexOf bytes)), ("members_found", Json.bool found)])
+    | _ => none
   | "mp_decode" =>
     -- `msg_pack::decode` of a byte string, as a tree
     match j.getObjVal? "hex" with
